@@ -111,6 +111,23 @@ def pyMinOpt {α : Type} (lt : α → α → Except Err Bool) : Option α → Op
   | some a, some b => pyMin lt a b
   | _, _ => .error .TypeError
 
+/-! ### Sets of small ints
+
+Python does not specify the iteration order of a `set`.  `list(set(xs))` is translated with an
+explicit parameter `ord : List Nat → List Nat` standing for that order: it receives the distinct
+elements in insertion order (what determines the state of the hash table) and returns them in
+iteration order.  Theorems about generated functions that take `ord` assume `SetOrder ord` only. -/
+
+/-- The distinct elements of `xs`, in order of first occurrence. -/
+def dedup {α : Type} [DecidableEq α] (xs : List α) : List α :=
+  xs.foldl (fun acc x => if x ∈ acc then acc else acc ++ [x]) []
+
+/-- `list(set(xs))` under the iteration order `ord`. -/
+def listOfSet (ord : List Nat → List Nat) (xs : List Nat) : List Nat := ord (dedup xs)
+
+/-- All that is assumed of an iteration order: the elements, each once. -/
+def SetOrder (ord : List Nat → List Nat) : Prop := ∀ l : List Nat, l.Nodup → (ord l).Perm l
+
 /-- Decidable comparison of results (used by the bounded refutation search of
     the harness; `Except` has no `DecidableEq` instance in core). -/
 def sameResult {ρ : Type} [DecidableEq ρ] : Except Err ρ → Except Err ρ → Bool
